@@ -54,4 +54,41 @@ def parseAny (s : String) : Option AnyVal :=
 /-- the `h<hex>` / `-` token of the bytes an `any` argument converts to -/
 def anyToken (s : String) : Option String := (parseAny s).map (fun a => showOptBytes (toBa a))
 
+/-! ### names a root record can carry
+
+The root record is JSON.  Go's encoder replaces every byte that is not part of a well-formed UTF-8
+sequence by U+FFFD, so a collection name that is not valid UTF-8 does not survive a re-open (and two
+such names can merge): defect F18.  Since its repair `Flush` refuses such names. -/
+
+def cont (b : UInt8) : Bool := 0x80 ≤ b && b ≤ 0xBF
+
+/-- `utf8.ValidString` (well-formed UTF-8, RFC 3629: no overlongs, no surrogates, ≤ U+10FFFF) -/
+def validUTF8 : Bytes → Bool
+  | [] => true
+  | b0 :: rest =>
+    if b0 ≤ 0x7F then validUTF8 rest
+    else if 0xC2 ≤ b0 && b0 ≤ 0xDF then
+      match rest with
+      | b1 :: r => cont b1 && validUTF8 r
+      | _ => false
+    else if 0xE0 ≤ b0 && b0 ≤ 0xEF then
+      match rest with
+      | b1 :: b2 :: r =>
+        (if b0 == 0xE0 then 0xA0 ≤ b1 && b1 ≤ 0xBF
+         else if b0 == 0xED then 0x80 ≤ b1 && b1 ≤ 0x9F
+         else cont b1) && cont b2 && validUTF8 r
+      | _ => false
+    else if 0xF0 ≤ b0 && b0 ≤ 0xF4 then
+      match rest with
+      | b1 :: b2 :: b3 :: r =>
+        (if b0 == 0xF0 then 0x90 ≤ b1 && b1 ≤ 0xBF
+         else if b0 == 0xF4 then 0x80 ≤ b1 && b1 ≤ 0x8F
+         else cont b1) && cont b2 && cont b3 && validUTF8 r
+      | _ => false
+    else false
+
+#guard validUTF8 [0x63, 0x61, 0x66, 0xc3, 0xa9, 0x20, 0xe2, 0x80, 0xa8, 0x20, 0xf0, 0x9f, 0x98, 0x80]
+#guard !validUTF8 [0xff] && !validUTF8 [0x61, 0xc3] && !validUTF8 [0xed, 0xa0, 0x80] && !validUTF8 [0xc0, 0x80]
+#guard !validUTF8 [0xf4, 0x90, 0x80, 0x80] && validUTF8 [0xf4, 0x8f, 0xbf, 0xbf] && !validUTF8 [0xe0, 0x9f, 0xbf]
+
 end Gkv
